@@ -371,13 +371,14 @@ func init() {
 			},
 			Steps: []string{"M", "Pb", "Pe", "S+", "CS+", "I+", "IX", "SS+", "H-", "R"},
 			// two persisted rounds leaving at least two live keys in the store, plus one batch still in memory
-			Roots: [][]string{{"B0", "M", "Pb", "Pe", "B2", "M", "Pb", "Pe", "B0"}, {"B2", "M", "Pb", "Pe", "B1"}},
-			Devs:  []string{"m1"},
+			// ... and one completed round followed by a round that is still in flight (the persister parked inside it)
+			Roots: [][]string{{"B0", "M", "Pb", "Pe", "B2", "M", "Pb", "Pe", "B0"}, {"B2", "M", "Pb", "Pe", "B1"}, {"B0", "M", "Pb", "Pe", "B1", "M", "Pb"}},
+			Devs:  []string{"m2"},
 			MaxB:  2, MaxD: 7, MaxK: 1, MaxH: 2, MaxR: 1, Deadline: tierDeadline(tier), WithRefs: true,
 			Note: "reference counters are part of the state key; oracle in every state: open handles still readable; terminal phase from every state: close the remaining handles, the collection and the store (quick: in the canonical order and its reverse; thorough: in every order), then no descriptor, no mapping, at most one data file"}
 		if tier == "thorough" {
 			sp.MaxB, sp.MaxD, sp.MaxK, sp.MaxH = 3, 9, 1, 3
-			sp.Devs = []string{"m1", "p1"}
+			sp.Devs = []string{"m1", "p1", "m2", "p2"}
 			sp.Configs = append(sp.Configs, Config{Backing: "store", MinMergePct: 0.01, Concern: 2, CachePersisted: true, IdleMS: 10, SleepBudget: 2})
 		}
 		sp.Check = func(w *World, path []string) []Violation {
